@@ -103,7 +103,27 @@ func c03Gen(seed uint64, tier string) *Plan {
 		b.add(Action{At: rng.Dur(time.Second, horizon-time.Second), Kind: "get_alerts"})
 	}
 	if rng.Bool(0.25) {
-		b.add(Action{At: rng.Dur(time.Minute, horizon-time.Minute), Kind: "reload", Cfg: Pick(rng, []int{0, 0, 1})})
+		at := b.add(Action{At: rng.Dur(time.Minute, horizon-time.Minute), Kind: "reload", Cfg: Pick(rng, []int{0, 0, 1})})
+		// the inhibitor built by the reload loads the alerts that already exist; in
+		// half of these runs its goroutine is slowed down while it does (a suspension
+		// before every insert into a rule's source cache), and the API is asked right
+		// after the reload returned: inhibition must be in force again by then
+		b.add(Action{At: at + time.Millisecond, Kind: "get_alerts"})
+		b.add(Action{At: at + 40*time.Millisecond, Kind: "get_alerts"})
+		if rng.Bool(0.5) {
+			p.Holds = append(p.Holds, Hold{Site: "auto.lock", Match: "store.Alerts.Set", Nth: -1, From: at, To: at + 3*time.Second, Delay: rng.Dur(20*time.Millisecond, 200*time.Millisecond) + 5})
+			// nothing is submitted while the window is open: the running inhibitor
+			// follows submissions through the same function, and the oracle reads
+			// the API 1 ms after a submission
+			kept := p.Actions[:0]
+			for _, a := range p.Actions {
+				if a.Kind == "post" && a.At >= at-100*time.Millisecond && a.At < at+3200*time.Millisecond {
+					continue
+				}
+				kept = append(kept, a)
+			}
+			p.Actions = kept
+		}
 	}
 	p.SortActions()
 	return p
